@@ -169,7 +169,7 @@ func main() {
 	run := common.NewRun("C17")
 	run.Res.Rule = "cases = (context, file name, skipTest) and (context, comment groups before the package clause); systematic product of OS/arch words in the last two name positions plus seeded random names and headers in both constraint syntaxes; non-trivial = name with at least one '_' element and a .go suffix, or header with at least one +build / go:build line; distinct = distinct protocol line"
 	defer run.Finish()
-	drv, err := common.StartDriver()
+	drv, err := common.StartDriver("C17")
 	if err != nil {
 		run.Errorf("driver: %v", err)
 		return
